@@ -404,9 +404,78 @@ def run_witness(ctx, harness, src, calls, g=8, reps=12):
 def round_payload(rec, extra):
     d = {"mode": "explore", "round_seed": rec.get("Seed"), "round_kind": rec.get("Kind"), "goroutines": rec.get("G"),
          "program": rec.get("Program"), "other_programs": rec.get("Programs"), "calls": rec.get("Calls"),
+         "unfinalized_after_compile": rec.get("Unfinalized"),
          "replay": "bin/check C19 --replay <this file>   (re-runs this round 20 times under the race detector)"}
     d.update(extra)
     return d
+
+
+
+def _label_paths(text):
+    """Map every line of a formatted CUE text to the label path it belongs to (by tab depth)."""
+    out = []
+    stack = {}
+    for line in text.split("\n"):
+        d = len(line) - len(line.lstrip("\t"))
+        body = line.strip()
+        m = re.match(r"^((?:[#_A-Za-z0-9\"\[\]=~^$.\\()-]+[?!]?: )+)", body + " ")
+        labels = []
+        if m:
+            labels = [x.strip().rstrip("?!") for x in m.group(1).split(": ") if x.strip()]
+        if labels:
+            stack[d] = labels
+            for k in [k for k in stack if k > d]:
+                del stack[k]
+        path = []
+        for k in sorted(stack):
+            if k < d or (k == d and labels):
+                path += stack[k]
+        out.append(".".join(path))
+    return out
+
+
+def f11_explains_mismatch(rec, m):
+    """Narrow recognition of a WRONG RESULT caused by known finding F11(b): some arcs of this very program are
+    not finalized after CompileString (rec['Unfinalized'], measured by the harness on a private copy), the call
+    set contains calls that finalize them lazily on the shared value, the mismatch happened in the concurrent
+    phase of a round whose shared value had not been walked before, and EVERY differing line of the two
+    results lies at or below the parent field of such an unfinalized arc.  Returns a description or None."""
+    unf = rec.get("Unfinalized") or []
+    if not unf or rec.get("Kind") not in ("shared-cold", "mixed") or "on the shared value" not in m.get("Where", ""):
+        return None
+    parents = sorted({u.rsplit(".", 1)[0] for u in unf if "." in u})
+    if not parents:
+        return None
+
+    def target(call):
+        head = call.split(" ")[0]
+        if " @" in call:
+            return call.rsplit(" @", 1)[1].strip()
+        if head in ("lookup", "kind", "default", "scalars", "expr", "refpath", "eval", "meta", "list"):
+            return call.split(" ", 1)[1].strip()
+        return ""
+    finalizers = [c for c in (rec.get("Calls") or [])
+                  if any(target(c) == u or target(c).startswith(u + ".") or target(c).startswith(u + "[") for u in unf)]
+    if not finalizers:
+        return None
+    if "...(truncated)" in m["Want"] or "...(truncated)" in m["Got"]:
+        return None
+    tgt = target(m["Call"])
+    want, got = m["Want"].split("\n"), m["Got"].split("\n")
+    import difflib
+    wp, gp = _label_paths(m["Want"]), _label_paths(m["Got"])
+    changed = []
+    for tag, i1, i2, j1, j2 in difflib.SequenceMatcher(None, want, got, autojunk=False).get_opcodes():
+        if tag != "equal":
+            changed += wp[i1:i2] + gp[j1:j2]
+    if not changed:
+        return None
+    for pth in changed:
+        full = ".".join(x for x in (tgt, pth) if x)
+        if not any(full == pa or full.startswith(pa + ".") for pa in parents):
+            return None
+    return ("WRONG RESULT of `%s` (%s): all differing lines lie below %s, whose arcs %s are not finalized after CompileString and are "
+            "finalized lazily on the shared value by %s" % (m["Call"], m["Where"], parents, unf, finalizers[:3]))
 
 
 def analyse_explore(ctx, results, stats, known_hits):
@@ -439,6 +508,11 @@ def analyse_explore(ctx, results, stats, known_hits):
                     # the F11(a) site itself: iterating Fields(cue.Patterns(true)) while another goroutine finalizes the
                     # shared pattern-constraint vertex reads a half-evaluated vertex (kind `_`)
                     known_hits.append(("F11", "exploration round=%d seed=%d kind=%s: WRONG RESULT of `%s`" % (r["Round"], r["Seed"], r["Kind"], m["Call"])))
+                    stats["mismatches_known_f11"] += 1
+                    continue
+                why = f11_explains_mismatch(r, m)
+                if why and "F11" in listed_ids():
+                    known_hits.append(("F11", "exploration round=%d seed=%d kind=%s: %s" % (r["Round"], r["Seed"], r["Kind"], why)))
                     stats["mismatches_known_f11"] += 1
                     continue
                 stats["mismatches"] += 1
